@@ -602,6 +602,7 @@ func (e *Engine) enterLoop(fr *frame, li *loopInfo, reach string, heap Heap, con
 			Goal:   implies(reach, t),
 			Pos:    e.posOf(firstPos(hdr)),
 			Func:   e.rootName(),
+			Using:  clUsing(cl),
 		})
 	}
 	// havoc
@@ -640,6 +641,30 @@ func (e *Engine) enterLoop(fr *frame, li *loopInfo, reach string, heap Heap, con
 		if sv, ok := fv.(SliceVal); ok && cellOffZero(pv) {
 			// every value ever stored in this slice variable starts at offset 0 of its backing array
 			fv = SliceVal{sv.Arr, bvLit(0, 64), sv.Len}
+		}
+		if nv, ok := fv.(SliceVal); ok && appendOnlyInLoop(pv, li) {
+			// the variable only grows by append(v, ...) in this loop and nothing in the loop writes
+			// elements of slices of this type in place: at every iteration it still starts with the
+			// elements it had when the loop was entered (assumed: semantics of append)
+			elemT := under(et).(*types.Slice).Elem()
+			inPlace := false
+			e.forLeaves(types.NewSlice(elemT), []pathElem{{field: -1}}, elemT, func(path []pathElem, suffix, leaf string, lt types.Type) {
+				if e.inModSet(keys, e.comp(types.NewSlice(elemT), path, suffix, leaf).key) {
+					inPlace = true
+				}
+			})
+			if ov, ok := e.load(h, e.asPtr(addr, pv.Type()), et).(SliceVal); ok && !inPlace {
+				e.sc.assume(implies(reach, app("bvsge", nv.Len, ov.Len)))
+				e.forLeaves(types.NewSlice(elemT), []pathElem{{field: -1}}, elemT, func(path []pathElem, suffix, leaf string, lt types.Type) {
+					c := e.comp(types.NewSlice(elemT), path, suffix, leaf)
+					cur := e.heapGet(h, c)
+					i := e.sc.freshName("pi")
+					body := implies(and(reach, app("bvsle", bvLit(0, 64), i), app("bvslt", i, ov.Len)),
+						eq(sel(sel(cur, nv.Arr), app("bvadd", nv.Off, i)), sel(sel(cur, ov.Arr), app("bvadd", ov.Off, i))))
+					e.sc.addTagged(fmt.Sprintf("L%d.prefix", e.loopOrdinal(fr, li)), fmt.Sprintf("(assert (forall ((%s %s)) %s))", i, SI64, body))
+				})
+				e.warnOnce("append-only slice variables: inside a loop they keep the elements they had at loop entry (assumed from the semantics of append; checked syntactically: every store in the loop is v = append(v, ...), no element of that slice type is written in place)")
+			}
 		}
 		e.store(h, e.asPtr(addr, pv.Type()), et, fv)
 		e.guard = saveG
@@ -697,6 +722,10 @@ func (e *Engine) enterLoop(fr *frame, li *loopInfo, reach string, heap Heap, con
 		e.sc.assume(app("bvugt", li.base, app("bvadd", e.allocBase, bvLit(0x8000, 32))))
 	}
 	e.lastLoopBase = li.base
+	// what is read at the loop head was allocated before this iteration
+	saveAB := e.allocBase
+	e.allocBase = li.base
+	defer func() { e.allocBase = saveAB }()
 	hv := map[ssa.Value]Val{}
 	for _, phi := range phis {
 		v := e.freshVal(phi.Type(), "loop_"+phi.Comment+"_"+phi.Name())
@@ -731,7 +760,8 @@ func (e *Engine) enterLoop(fr *frame, li *loopInfo, reach string, heap Heap, con
 	e.sc.assume(implies(hreach, reach))
 	for _, c := range li.invs {
 		t := e.evalGhostAt(fr, li, c, hv, h)
-		e.sc.assume(implies(hreach, t))
+		_, cl := e.clauseOfPred(fr.fn, c.Call.StaticCallee().Name())
+		e.sc.assumeTagged(fmt.Sprintf("L%d.%s", clLoop(cl), clLabel(cl)), implies(hreach, t))
 	}
 	li2 := liState{heap: h.clone(), phis: hv, reach: hreach}
 	e.loopStates[li] = &li2
@@ -750,6 +780,23 @@ func (e *Engine) loopMods(li *loopInfo, keys map[string]bool) {
 		e.loopModKeys = map[*loopInfo]map[string]bool{}
 	}
 	e.loopModKeys[li] = keys
+}
+
+// loopOrdinal: the ordinal of the loop in its function as used by the contract clauses.
+func (e *Engine) loopOrdinal(fr *frame, li *loopInfo) int {
+	for _, c := range li.invs {
+		if _, cl := e.clauseOfPred(fr.fn, c.Call.StaticCallee().Name()); cl != nil {
+			return clLoop(cl)
+		}
+	}
+	return -1
+}
+
+func clUsing(cl *Clause) []string {
+	if cl == nil {
+		return nil
+	}
+	return cl.Using
 }
 
 func firstPos(b *ssa.BasicBlock) (p token.Pos) {
@@ -833,6 +880,7 @@ func (e *Engine) closeLoop(fr *frame, li *loopInfo, tail *ssa.BasicBlock, succId
 			Goal:   implies(cond, t),
 			Pos:    e.posOf(firstPos(hdr)),
 			Func:   e.rootName(),
+			Using:  clUsing(cl),
 		})
 	}
 	for _, c := range li.decs {
@@ -864,10 +912,15 @@ func (e *Engine) closeLoop(fr *frame, li *loopInfo, tail *ssa.BasicBlock, succId
 
 // assumeBelow: every reference directly held by v existed before the iteration.
 func (e *Engine) assumeBelow(v Val, t types.Type, base string) {
+	below := func(r string) {
+		// older than the loop body's objects and than the objects allocated after the loop
+		e.sc.assume(and(app("bvult", r, base), or(app("bvult", r, bvLit(uint64(0x80000000)+uint64(e.nalloc)+1, 32)), app("bvuge", r, bvLit(0x90000000, 32)))))
+		e.sc.stampRef(r, e.sc.seq)
+	}
 	switch x := v.(type) {
 	case Sc:
 		if x.S == SRef && bitsOf(t) == 0 {
-			e.sc.assume(app("bvult", x.T, base))
+			below(x.T)
 		}
 	case StructVal:
 		st := under(t).(*types.Struct)
@@ -875,14 +928,69 @@ func (e *Engine) assumeBelow(v Val, t types.Type, base string) {
 			e.assumeBelow(f, st.Field(i).Type(), base)
 		}
 	case SliceVal:
-		e.sc.assume(app("bvult", x.Arr, base))
+		below(x.Arr)
 	case IfaceVal:
-		e.sc.assume(app("bvult", x.Ref, base))
+		below(x.Ref)
 	}
 }
 
 // sliceOffZero: every value that can flow into v is a slice that starts at offset
 // 0 of its backing array (nil, make, append results, or a phi of such).
+// appendOnlyInLoop: every store to the slice variable cell pv inside the loop (its blocks and
+// the functions nested in it) is  pv = append(pv, ...).
+func appendOnlyInLoop(pv ssa.Value, li *loopInfo) bool {
+	al, ok := pv.(*ssa.Alloc)
+	if !ok || al.Referrers() == nil {
+		return false
+	}
+	for _, r := range *al.Referrers() {
+		switch x := r.(type) {
+		case *ssa.Store:
+			if x.Addr != pv {
+				return false
+			}
+			if !li.blocks[x.Block()] {
+				continue
+			}
+			call, ok := x.Val.(*ssa.Call)
+			if !ok {
+				return false
+			}
+			b, ok := call.Call.Value.(*ssa.Builtin)
+			if !ok || b.Name() != "append" || len(call.Call.Args) == 0 {
+				return false
+			}
+			ld, ok := call.Call.Args[0].(*ssa.UnOp)
+			if !ok || ld.Op != token.MUL || ld.X != pv {
+				return false
+			}
+		case *ssa.UnOp, *ssa.DebugRef:
+		case *ssa.MakeClosure:
+			// closures may read the variable; one that can write it disqualifies
+			fn := x.Fn.(*ssa.Function)
+			for i, bnd := range x.Bindings {
+				if bnd != pv {
+					continue
+				}
+				fvr := fn.FreeVars[i]
+				if fvr.Referrers() == nil {
+					continue
+				}
+				for _, fr := range *fvr.Referrers() {
+					switch fr.(type) {
+					case *ssa.UnOp, *ssa.DebugRef:
+					default:
+						return false
+					}
+				}
+			}
+		default:
+			return false
+		}
+	}
+	return true
+}
+
 // cellOffZero: pv is a local variable cell (Alloc) of slice type and every store to it,
 // in its function and in the closures capturing it, stores a value at offset 0.
 func cellOffZero(pv ssa.Value) bool {
